@@ -26,7 +26,7 @@ def sample_cfg(rng, clean=None):
     name = rng.choice(["nacl", "tetab", "tric", "fe2", "tetsnf", "tetloose", "p4"])
     cell = dict(name=name, ext=rng.random() < 0.4,
                 mag=(rng.choice(["none", "col", "noncol"]) if name == "fe2" else "none"),
-                masses=rng.choice(["std", "c6", "c9"]), generic=rng.random() < 0.4)
+                masses=rng.choice(["std", "c6", "c9", "set"]), generic=rng.random() < 0.4)
     cell.update(W.cell_attrs(name))
     t = rng.choice([0, 1, 1, 2, 2])
     ds = dict(type=t, forces=(t != 0 and rng.random() < 0.7), energies=(t != 0 and rng.random() < 0.4))
@@ -224,16 +224,16 @@ INVARIANT ImplPhononsFromSaved
 INVARIANT ImplSaveRule
 INVARIANT ImplNoAmbientCapture
 INVARIANT ImplExplicitBeatsAmbient
-INVARIANT ImplLoads
-INVARIANT ImplAtomOrder
-INVARIANT ImplTolerance
 INVARIANT ImplSameOptions
 INVARIANT ImplCellPriority
 INVARIANT ImplPhononScale
 INVARIANT ImplCells
+INVARIANT ImplPhononsCompared
+INVARIANT ImplLoads
+INVARIANT ImplTolerance
+INVARIANT ImplAtomOrder
 INVARIANT ImplNumbers
 INVARIANT ImplPhonons
-INVARIANT ImplPhononsCompared
 INVARIANT ConformsWritten
 INVARIANT ConformsContainer
 INVARIANT ConformsStatus
@@ -303,6 +303,64 @@ def cells_cfg(rng, subset):
     return one_layout(cfg)
 
 
+def not_persisted_class(name, e, ld):
+    """Is this violation ONLY the effect of a constructor option that save() does not record and that load() was not
+    given?  -> (option, invariant) or None.  The two classes (fixes/c16-snf-supercell-order.md,
+    fixes/c16-symmetry-tolerance-not-read.md):
+      use_SNF_supercell - the saved file is the source of the cells, the supercell matrix is one for which the two
+          constructions order the atoms differently, load()'s flag is not the object's, and the reloaded supercell has the
+          atoms in the order of load()'s flag: ImplAtomOrder, its consequences on the numbers attached to the atoms, and
+          the machine/outcome difference in np.order alone;
+      symprec - the object was built with the loose tolerance, load() was given none, and the outcome is the default
+          tolerance in effect (ImplTolerance, difference in np.tol alone) or, for the cell whose primitive matrix holds
+          only at the loose tolerance, the symmetry failure (ImplLoads, ConformsStatus).
+    Anything else - a wrong order or a failing load in any other situation - keeps its generic key."""
+    try:
+        eo, ea, ob = e["eo"], e["ea"], e["obs"]
+        if any(ea["cells"].values()):
+            return None
+        ok = ob["status"] == "ok"
+        want = ("snf" if eo["np"]["snf"] else "classic") if eo["cell"]["snfS"] else "same"
+        built = ("snf" if ea["np"]["snf"] else "classic") if eo["cell"]["snfS"] else "same"
+        snf = (eo["cell"]["snfS"] and bool(eo["np"]["snf"]) != bool(ea["np"]["snf"]) and ok
+               and ob["np"]["order"] == built and built != want)
+        tol = eo["np"]["tol"] == "loose" and ea["np"]["tol"] == "unset"
+        tol_ok = tol and ok and ob["np"]["tol"] == "default"
+        tol_raised = tol and not ok and ob["why"] == "symmetry" and eo["cell"]["fragile"]
+
+        def core_diff():
+            """fields in which the logged outcome differs from the machine's"""
+            if not isinstance(ld, dict) or not ok or ld.get("status") != "ok":
+                return None
+            d = set()
+            for k in ("calc", "ds", "nac", "cell"):
+                if ob[k] != ld[k]:
+                    d.add(k)
+            if (ob["fc"]["src"], ob["fc"]["layout"]) != (ld["fc"]["src"], ld["fc"]["layout"]):
+                d.add("fc")
+            for k in ("order", "tol", "issym", "freq"):
+                if ob["np"][k] != ld["np"][k]:
+                    d.add("np." + k)
+            return d
+        if name == "ImplAtomOrder" and snf:
+            return "use_SNF_supercell", "ImplAtomOrder"
+        if name in ("ImplNumbers", "ImplPhonons", "ImplPhononsFromSaved") and snf:
+            return "use_SNF_supercell", "ImplAtomOrder"     # numbers attached to the atoms of the other order
+        if name == "ImplTolerance" and tol_ok:
+            return "symprec", "ImplTolerance"
+        if name in ("ImplLoads", "ConformsStatus") and tol_raised:
+            return "symprec", "ImplLoads"
+        if name == "ConformsLoaded":
+            d = core_diff()
+            if d and snf and d <= {"np.order"} | ({"np.tol"} if tol_ok else set()):
+                return "use_SNF_supercell", "ImplAtomOrder"
+            if d and tol_ok and d <= {"np.tol"}:
+                return "symprec", "ImplTolerance"
+    except Exception:
+        return None
+    return None
+
+
 def saveload_layer(ctx, col, replay_cfgs=None):
     n = 210 if ctx.quick else 3000
     nfocus = 40 if ctx.quick else 500
@@ -344,25 +402,24 @@ def saveload_layer(ctx, col, replay_cfgs=None):
         res = ctx.tlc("MC_SaveLoadTrace", cfg_text=CFG_TRACE, extra_files={"MC_SaveLoadTrace.tla": mc},
                       requirement=False, extra_args=("-continue",), workers=4)
         for name, tr in res.violations:
-            e = tr[-1][1].get("ev", {}) if tr else {}
+            stt = tr[-1][1] if tr else {}
+            e = stt.get("ev", {})
+            violated_all.add(name)
+            cls = not_persisted_class(name, e, stt.get("ld"))
+            if cls is not None:
+                option, inv = cls
+                hits = ctx.extra.setdefault("not_persisted_hits", {})
+                hits["%s:%s" % (option, inv)] = hits.get("%s:%s" % (option, inv), 0) + 1
+                ctx.violation("saveload:notpersisted:%s:%s" % (option, inv),
+                              "C16 %s fails because the object was built with %s, which save() does not record and load() was not given"
+                              % (inv, option), dict(invariant=inv, reported_as=name, option=option, event=e))
+                continue
             if name.startswith("Conforms"):
                 ctx.extra.setdefault("SPEC-DRIFT", [])
                 if name not in ctx.extra["SPEC-DRIFT"]:
                     ctx.extra["SPEC-DRIFT"].append(name)
-                    ctx.extra.setdefault("drift_witness", {})[name] = e
-                violated_all.add(name)
-                continue
-            violated_all.add(name)
-            try:
-                eo, ob = e["eo"], e["obs"]
-                want = ("snf" if eo["np"]["snf"] else "classic") if eo["cell"]["snfS"] else "same"
-                misordered = (ob["status"] == "ok" and ob["cell"]["src"] == "yaml" and ob["np"]["order"] != want)
-            except Exception:
-                misordered = False
-            if misordered and name in ("ImplNumbers", "ImplPhonons", "ImplPhononsFromSaved", "ImplCells"):
-                # numbers attached to the atoms of another order: the consequence of ImplAtomOrder, reported under its key
-                ctx.violation("saveload:ImplAtomOrder", "C16 save/load requirement ImplAtomOrder fails on the implementation's outcome",
-                              dict(invariant="ImplAtomOrder", consequence=name, event=e))
+                ctx.violation("saveload:" + name, "C16 the implementation's save/load outcome differs from SaveLoad.tla (%s)" % name,
+                              dict(invariant=name, event=e, machine=stt.get("ld")))
                 continue
             ctx.violation("saveload:" + name, "C16 save/load requirement %s fails on the implementation's outcome" % name,
                           dict(invariant=name, event=e))
@@ -931,7 +988,6 @@ def run(ctx):
         if "eo" in e:
             cfg = dict(obj=e["eo"], st=e["es"], comp=e["ec"], args=e["ea"], env=e["ee"], big=e.get("big", False))
             events, texts, violated = saveload_layer(ctx, col, replay_cfgs=[(cfg, int(e.get("wseed", 0)))])
-            _drift_to_violation(ctx, violated)
             return
         ctx.seed = int(rp.get("seed", ctx.seed))
         codec_layer(ctx, col)
@@ -945,13 +1001,3 @@ def run(ctx):
     codec_layer(ctx, col)
     compat_layer(ctx)
     text_layer(ctx, col)
-    _drift_to_violation(ctx, violated)
-
-
-def _drift_to_violation(ctx, violated):
-    drift = [v for v in violated if v.startswith("Conforms")]
-    if drift:
-        # the machine IS the model of the implemented priority rules: an unexplained difference is reported
-        for v in drift:
-            ctx.violation("saveload:" + v, "C16 the implementation's save/load outcome differs from SaveLoad.tla (%s)" % v,
-                          dict(invariant=v, event=ctx.extra.get("drift_witness", {}).get(v)))
